@@ -230,6 +230,12 @@ func plainIntType(t types.Type) bool {
 
 // modelBmain: extra external models; returns handled=false to fall through to the older models.
 func (e *Engine) modelBmain(s *State, fr *Frame, key string, f *ssa.Function, args []Value, site ssa.Instruction) (Value, bool) {
+	// opt-in: the exact string models apply only under a root whose contract says `exact_strings`; every other root
+	// keeps the previous models (Sprintf: arbitrary string, path.Join: unknown pure call), so existing checks see
+	// exactly the queries they saw before
+	if e.rootContract == nil || e.rootContract.Flags["exact_strings"] == "" {
+		return nil, false
+	}
 	switch key {
 	case "fmt.Sprintf":
 		call, ok := site.(*ssa.Call)
